@@ -13,21 +13,24 @@ import lib, pyimath, c19lib
 import c19_gen
 
 REQUIRED = [
-    "readonly_invariant", "readonly_invariant_asWritten_false", "readonly_invariant_asWritten_false_vector",
-    "witness_masked_inplace_trace", "readonly_step_raises", "setitem_readonly_error", "iaddScalar_readonly_error",
-    "writable_monotone", "step_protected",
+    # primary: the code as it is now (Cfg.current / BufCfg.repaired, decided by correspondence below)
+    "readonly_invariant", "readonly_invariant_current", "readonly_step_raises", "readonly_step_raises_current",
+    "setitem_readonly_error", "iaddScalar_readonly_error", "writable_monotone", "step_protected",
     "canonical_index_refines", "canonical_index_in_bounds", "slice_indices_refine", "slice_indices_in_bounds",
-    "slice_accepted_forward", "slice_rejected_only_if", "slice_any_sign_false", "slice_any_sign_witnesses",
-    "slice_any_sign_repaired", "slice_empty_backward_witness", "ifelse_refines_repaired", "array2d_forward_slices_accepted",
+    "slice_any_sign", "current_start_test", "getslice_total",
     "getitem_refines", "getslice_refines", "getmask_refines", "setitem_scalar_slice_refines",
     "setitem_scalar_int_refines", "setitem_vector_slice_refines", "setitem_vector_length_mismatch",
     "setitem_scalar_mask_refines", "setitem_vector_mask_refines", "ifelse_refines", "mask_length_mismatch",
-    "error_leaves_state", "ifelse_readonly_quirk", "setitem_scalar_mask_on_masked_ignores_mask",
-    "convert_masked_oob_asWritten", "convert_repaired_refines",
+    "error_leaves_state", "convert_refines", "setitem_scalar_mask_on_masked_ignores_mask",
+    "array2d_item_refines", "array2d_getslice_forward_refines", "array2d_forward_slices_accepted", "matrix_row_refines",
     "string_table_bijection", "string_table_intern", "string_array_reads_last_stored", "string_array_create_repr",
-    "buffer_len_repaired", "buffer_len_asWritten_scalar", "buffer_len_asWritten_false", "buffer_len_asWritten_witness",
-    "from_buffer_repaired", "from_buffer_repaired_never_oob", "from_buffer_asWritten_unchecked",
-    "array2d_item_refines", "array2d_getslice_forward_refines", "matrix_row_refines",
+    "buffer_len_is_shape_times_itemsize", "from_buffer_exact", "from_buffer_never_overruns",
+    # former defects: refutations for the as-written variants, kept as documentation / regression witnesses
+    "readonly_invariant_asWritten_false", "readonly_invariant_asWritten_false_vector", "witness_masked_inplace_trace",
+    "slice_accepted_forward", "slice_rejected_only_if", "slice_any_sign_false", "slice_any_sign_witnesses",
+    "slice_empty_backward_witness", "ifelse_readonly_quirk", "ifelse_refines_nonconst_former",
+    "convert_masked_oob_asWritten", "buffer_len_asWritten_scalar", "buffer_len_asWritten_false",
+    "buffer_len_asWritten_witness", "from_buffer_asWritten_unchecked",
 ]
 
 FIX = {
@@ -451,7 +454,7 @@ def strings(chk):
                  {"first": bad_sr[0]}, True)
 
 
-def slices_vs_cpython(chk, cfg=c19lib.AS_WRITTEN):
+def slices_vs_cpython(chk, cfg=c19lib.CURRENT):
     """model slice normalisation, the Lean specification walk and CPython itself, exhaustive small scope"""
     req, meta = [], []
     f = lambda x: "N" if x is None else str(x)
@@ -518,6 +521,62 @@ def slices_vs_cpython(chk, cfg=c19lib.AS_WRITTEN):
         chk.fail("slice:model", "slice-model-vs-cpython", "model slice normalisation differs from CPython", {"first": bad_model[0]}, True)
     if bad_spec or gi_bad:
         chk.fail("slice:spec", "slice-spec-vs-cpython", "Lean specification differs from CPython", {"first": (bad_spec + gi_bad)[0]}, True)
+
+
+def readonly_sweep(chk):
+    """every mutating entry point (found by introspection and by its observed effect on a writable twin) of every
+    class with makeReadOnly, through the read-only object and every view derived from it: must raise, data unchanged"""
+    script = os.path.join(c19lib.HPY, "c19_rosweep.py")
+    rc, out = lib.sh([pyimath.PYTHON, script, "list"], env=pyimath.env(), timeout=120)
+    try:
+        lst = json.loads(out[out.index("{"):])
+    except Exception:
+        chk.oblige("readonly-sweep", "correspondence", False, out[-400:])
+        chk.fail("readonly-sweep", "readonly-sweep-harness", "read-only sweep harness failed", {"output": out[-2000:]}, False)
+        return
+    classes = lst["with_makeReadOnly"]
+
+    def one(c):
+        return c, lib.sh([pyimath.PYTHON, script, "run", c], env=pyimath.env(), timeout=600)
+    tot = mut = 0
+    per = {}
+    with ThreadPoolExecutor(lib.NCPU) as ex:
+        for c, (rc, o) in ex.map(one, classes):
+            recs = []
+            for l in o.split("\n"):
+                if l.startswith("{"):
+                    try:
+                        recs.append(json.loads(l))
+                    except Exception:
+                        pass
+            sm = [r["summary"] for r in recs if "summary" in r]
+            defects = [r for r in recs if "defect" in r]
+            obl = "readonly-sweep:%s" % c
+            okc = rc == 0 and bool(sm) and not defects
+            chk.oblige(obl, "correspondence", okc,
+                       None if okc else {"rc": rc, "defects": [d["defect"] for d in defects][:6], "tail": o[-200:] if rc else None})
+            if sm:
+                tot += sm[0]["valid_triples"]; mut += sm[0]["mutating_triples"]
+                per[c] = {"views": sm[0]["views"], "valid": sm[0]["valid_triples"], "mutating": sm[0]["mutating_triples"]}
+            if rc != 0 or not sm:
+                last = [r["try"] for r in recs if "try" in r][-1:]
+                chk.fail(obl, "readonly-sweep-crash:%s" % c,
+                         "the read-only mutator sweep died on %s (last attempt %s)" % (c, last), {"tail": o[-1500:], "last": last}, True)
+            for d in defects:
+                view = d["view"]
+                chk.fail(obl, d["defect"],
+                         "%s through %s of a read-only %s %s" % (
+                             d["entry"], "the array itself" if not view else "its view `x%s`" % view, c,
+                             "does not raise" if d["raised"] is None else "raises (%s) but the data changed" % d["raised"]),
+                         {"class": c, "view": view, "entry": d["entry"], "key_kind": d["key"], "value_kind": d["value"],
+                          "raised": d["raised"], "before": d["before"], "after": d["after"],
+                          "python": "x = <%s with 4 elements>; x.makeReadOnly(); v = x%s; v.%s(<%s>, <%s>)   # see harness/py/c19_rosweep.py run %s"
+                                    % (c, view, d["entry"], d["key"], d["value"], c)}, True)
+    chk.extra["readonly_sweep"] = {"classes_with_makeReadOnly": len(classes),
+                                   "arraylike_without_makeReadOnly(no read-only state to protect)": lst["arraylike_without_makeReadOnly"],
+                                   "valid_(class,view,entry,args)_triples": tot, "mutating_triples_checked_on_readonly": mut,
+                                   "per_class": per}
+    chk.count(tot, mut)
 
 
 def lifetimes(chk):
@@ -671,6 +730,11 @@ def run(chk):
             co.note_key(KEY_OF[fl], prog, "repaired model: " + outs[1][1][len(prog) - 1], r[len(prog) - 1], "IntArray")
     best = tuple(1 if (votes[k] and all(v == 1 for v in votes[k])) else 0 for k in range(c19lib.NFLAGS))
     co.cfg = best
+    # the primary theorems (readonly_invariant_current, slice_any_sign, ifelse_refines, convert_refines, ...) are stated
+    # for Cfg.current = (1,1,1,1,0); a flag falling back to "as written" is a regression of a fixed defect and is
+    # reported through its finding key (note_key above), at full strength
+    chk.oblige("variant:current-tree-is-Cfg.current(or fully repaired)", "correspondence", tuple(best[:4]) == (1, 1, 1, 1),
+               dict(zip(c19lib.FLAG_NAMES, best)))
     chk.extra["model_variant"] = {"decided_by_correspondence": dict(zip(c19lib.FLAG_NAMES, [bool(b) for b in best])),
                                   "witness_votes": {c19lib.FLAG_NAMES[k]: v for k, v in votes.items()}}
 
@@ -764,4 +828,6 @@ def run(chk):
     buffers(chk)
     chk.extra["buffers_s"] = round(time.time() - t0, 1); t0 = time.time()
     lifetimes(chk)
-    chk.extra["lifetimes_s"] = round(time.time() - t0, 1)
+    chk.extra["lifetimes_s"] = round(time.time() - t0, 1); t0 = time.time()
+    readonly_sweep(chk)
+    chk.extra["readonly_sweep_s"] = round(time.time() - t0, 1)
